@@ -11,6 +11,12 @@ FALSY = [
     {"nodes": [{"k": "child", "body": [{"k": "wfc", "polls": 3, "init": 1, "states": [0, 0, 5]}]}, {"k": "step"}]},
 ]
 # check functions that take time: the (asynchronous) START is sent, or still in flight, while the poll runs
+# wait strategies that build the decision themselves (not through the factory) and ask for a zero / sub-second delay
+RAW = [
+    {"nodes": [{"k": "wfc", "polls": 3, "delay": 0, "raw_decision": True}, {"k": "step"}]},
+    {"nodes": [{"k": "wfc", "polls": 2, "delay": 0.4, "raw_decision": True}]},
+    {"nodes": [{"k": "wfc", "polls": 2, "delay": 0}, {"k": "step"}]},
+]
 SLOW = [
     {"nodes": [{"k": "wfc", "polls": 2, "dur": 0.3}, {"k": "step"}]},
     {"nodes": [{"k": "step"}, {"k": "wfc", "polls": 3, "dur": 1.2}]},
@@ -20,7 +26,7 @@ SLOW = [
 
 def run(ctx):
     run_durable(ctx, model=["s03_child_wfc", "s12_wfc_three_polls", "s17_child_wfc_inside", "s05_wfcb_childfail_wfcfail"],
-                programs=["s03_child_wfc", "s12_wfc_three_polls", "s17_child_wfc_inside", "s05_wfcb_childfail_wfcfail"] + FALSY + SLOW,
+                programs=["s03_child_wfc", "s12_wfc_three_polls", "s17_child_wfc_inside", "s05_wfcb_childfail_wfcfail"] + FALSY + SLOW + RAW,
                 oracle_fns=[oracles.c13, oracles.c03],
                 gen_kw={"kinds": ["wfc", "wfc", "step", "wait", "child"]},
                 scen_kw={"crash": 0.6, "paging": 0.3},
